@@ -495,6 +495,8 @@ func runC07(e *Engine, r *Report) {
 	}
 	// ---- shared election guards
 	ruleCampaignGuard(e, r, tbl)
+	ruleConfigChangeClearsPending(e, r)
+	ruleRemovedLeaderStepsDown(e, r)
 	ruleCampaignPredicate(e, r)
 	ruleElectionMessageGuard(e, r)
 
